@@ -173,7 +173,7 @@ class LoadError(Exception):
 
 
 def design(topo, eqpt, extra=(), power_mode=None, span=None, si=None, json_data=None, strip=False, edfa_attrs=None,
-           lumped=False):
+           lumped=False, args_power=None, roadm_bands=None):
     """load + real designed_network under the recorders -> (network, equipment, reference channel, recorder)"""
     from gnpy.tools.json_io import network_from_json
     from gnpy.tools.worker_utils import designed_network
@@ -184,11 +184,19 @@ def design(topo, eqpt, extra=(), power_mode=None, span=None, si=None, json_data=
         if lumped:
             from gnpy.tools.json_io import load_gnpy_json
             json_data = with_lumped_losses(json_data if json_data is not None else load_gnpy_json(Path(topo)))
+        if roadm_bands:
+            # every ROADM declares these design bands (their own f_min / f_max / spacing)
+            from gnpy.tools.json_io import load_gnpy_json
+            json_data = copy.deepcopy(json_data if json_data is not None else load_gnpy_json(Path(topo)))
+            for el in json_data['elements']:
+                if el.get('type') == 'Roadm':
+                    el.setdefault('params', {})['design_bands'] = copy.deepcopy(roadm_bands)
         net = network_from_json(copy.deepcopy(json_data), eq) if json_data is not None else load_topology(topo, eq)
     except Exception as e:                                               # noqa
         raise LoadError(f'{type(e).__name__}: {e}') from e
     with DesignRecorder(net) as rec:
-        net, _req, ref = designed_network(eq, net)
+        net, _req, ref = designed_network(eq, net, args_power=args_power)
+    rec.req_tx_power_w = getattr(_req, 'tx_power', None)
     return net, eq, ref, rec
 
 
@@ -376,7 +384,7 @@ def design_load(eq, bands, pref_ch_dbm, tx_power_dbm=None):
     return out
 
 
-def propagate_oms(net, eq, ref, ingress, chain, egress, bands):
+def propagate_oms(net, eq, ref, ingress, chain, egress, bands, tx_w=None):
     """real propagation of the design load over one OMS: ingress (ROADM add path or transceiver) -> line -> egress
     ROADM.  Returns {'after': {id(element or band-amp): (sig_w, tot_w) per band name}, 'roadm': ...} or None when the
     OMS cannot be driven (no add port etc.)."""
@@ -384,7 +392,9 @@ def propagate_oms(net, eq, ref, ingress, chain, egress, bands):
     from gnpy.core import elements as E
     pref_ch = 10 * math.log10(ref.power * 1e3)
     si_cfg = eq['SI']['default']
-    si = design_load(eq, bands, pref_ch, si_cfg.tx_power_dbm)
+    # launch power: the one of the request designed_network hands back for propagation (tx_w), else SI tx_power_dbm
+    tx_dbm = 10 * math.log10(tx_w * 1e3) if tx_w else si_cfg.tx_power_dbm
+    si = design_load(eq, bands, pref_ch, tx_dbm)
     obs = {}
 
     def per_band(s):
@@ -506,13 +516,15 @@ def synthetic_equipment(edfa, span=None, si=None, roadm=None, base=None):
     return _equipment_from_json(d, DEFAULT_EXTRA_CONFIG)
 
 
-def design_json(json_data, eq):
-    """real network_from_json + designed_network under the recorders"""
+def design_json(json_data, eq, args_power=None):
+    """real network_from_json + designed_network under the recorders; args_power: the reference power given on the
+    command line (designed_network's args_power) instead of through SI power_dbm"""
     from gnpy.tools.json_io import network_from_json
     from gnpy.tools.worker_utils import designed_network
     net = network_from_json(copy.deepcopy(json_data), eq)
     with DesignRecorder(net) as rec:
-        net, _req, ref = designed_network(eq, net)
+        net, _req, ref = designed_network(eq, net, args_power=args_power)
+    rec.req_tx_power_w = getattr(_req, 'tx_power', None)       # launch power of the request the tool goes on to propagate
     return net, ref, rec
 
 
@@ -566,7 +578,8 @@ def oms_traces(net, eq, ref, rec, name, mode, propagate=True, stats=None, only=N
         todo.append((ingress, chain, egress, bands, profs))
     # every profile is snapshotted before any propagation: an Edfa crossing overwrites effective_gain when it clamps
     for ingress, chain, egress, bands, profs in todo:
-        obs = propagate_oms(net, eq, ref, ingress, chain, egress, bands) if propagate else None
+        obs = propagate_oms(net, eq, ref, ingress, chain, egress, bands,
+                            tx_w=getattr(rec, 'req_tx_power_w', None)) if propagate else None
         if obs is not None and 'exc' in obs and stats is not None:
             stats.setdefault('propagation_exceptions', []).append(f'{name}:{chain[0].uid}: {obs["exc"][:120]}')
         for pr in profs:
